@@ -9,12 +9,17 @@ BUDGET = SPEC["root_budget"]["max_root_directory_bytes"]
 from absint import is_streamlike_ty as absint_is_streamlike
 
 
+_DW = set()
+
+
 def dir_write_fn(fn):
-    return fn.startswith("directory::Directory::to_") and "writer" in fn
+    return fn in _DW
 
 
 def spill_fns(ctx):
     """the root-directory writers (see rulebase.spill_role_fns)"""
+    _DW.clear()
+    _DW.update(dir_writer_fns(ctx.facts))
     return spill_role_fns(ctx.facts)
 
 
